@@ -33,6 +33,9 @@ type Config struct {
 	// CrashBudget: after this many non-returning/crashing executions of one
 	// and the same event text it is no longer offered (the finding is
 	// established; every repetition costs a worker restart).
+	// SyncTree: this check does not judge the tree; where the observed tree
+	// differs from the reference (a C18 matter) the reference follows the store.
+	SyncTree    bool
 	CrashBudget int
 	// OwnsCrash: whether a crashing / non-returning request violates this property.
 	Assumptions []string
@@ -183,6 +186,10 @@ func (rn *runner) replay(path []string) (Model, int) {
 			st := rn.w.Observe(rn.ids)
 			model.Adopt(&st)
 		}
+		if ev.Sync {
+			st := rn.w.Observe(rn.ids)
+			model.SyncKinds(&st)
+		}
 	}
 	rn.w.TakeScheduled()
 	return model, links
@@ -246,6 +253,11 @@ func (rn *runner) transition(path []string, evs string, pp *prepared) (res resul
 		st.Ex.Conflict = true
 		model.Adopt(&post)
 	}
+	synced := false
+	if rn.cfg.SyncTree && ev.Op == "mv" && !st.Refused && model.KindsDiffer(&post) {
+		model.SyncKinds(&post)
+		synced = true
+	}
 	var acc Acc
 	v := rn.cfg.Judge(st, &acc)
 	res.Ev = evs
@@ -263,6 +275,9 @@ func (rn *runner) transition(path []string, evs string, pp *prepared) (res resul
 	res.Shape = shapeOf(rn.cfg.Alpha.Paths, &post)
 	if st.Refused {
 		ev.Refused = true
+		res.PathEv = ev.String()
+	} else if synced {
+		ev.Sync = true
 		res.PathEv = ev.String()
 	}
 	return
